@@ -1042,6 +1042,10 @@ EXCEPTIONS = [
     ("html::Tokenizer::read_comment", "sub", "Sub(self.raw.end, str::len('-->'))", "entered after `<!--` was read: at least 5 bytes of this token precede the `>`"),
     ("html::Tokenizer::read_comment", "sub", "Sub(self.raw.end, str::len('--!>'))", "entered after `<!--` was read: at least 6 bytes of this token precede the `>`"),
     ("html::Tokenizer::read_cdata", "sub", "Sub(self.raw.end, str::len(']]>'))", "the `[CDATA[` loop of the same function has read 7 bytes of this token"),
+    # struct invariants of the tokenizer spans (data.start <= data.end <= raw.end <= reader.len(), R16.1 / R16.2): any method may rely on them
+    ("html::Tokenizer::*", "sub", "Sub(self.data.end, self.data.start)", "span invariant data.start <= data.end (read_tag_name sets start then only moves end forward)"),
+    ("html::Tokenizer::*", "index", "index(self.reader, Range::Range{start: self.data.start, end: self.data.end})", "span invariant data.start <= data.end <= reader.len() (R16.2)"),
+    ("html::Tokenizer::*", "index", "index(self.reader, Range::Range{start: self.raw.start, end: self.raw.end})", "span invariant raw.start <= raw.end <= reader.len() (R16.1 / R16.2)"),
     ("html::Tokenizer::start_tag_in", "sub", "Sub(self.data.end, self.data.start)", "span invariant data.start <= data.end (read_tag_name sets start then only moves end forward)"),
     ("html::Tokenizer::start_tag_in", "index", "index(self.reader, (self.data.start AddWithOverflow", "i < s.len() == data.end - data.start (tested just before) and data.end <= reader.len() (span invariant, R16.2)"),
     ("html::Tokenizer::read_start_tag", "index", "index(self.reader, self.data.start)", "no error after read_tag: the tag name span is non-empty and inside the buffer (R16.2)"),
@@ -1068,7 +1072,7 @@ EXCEPTIONS = [
 
 def find_exception(site):
     for fk, kind, sub, reason in EXCEPTIONS:
-        if site.owner.key == fk and site.kind == kind and sub in site.sig:
+        if (site.owner.key == fk or (fk.endswith("*") and site.owner.key.startswith(fk[:-1]))) and site.kind == kind and sub in site.sig:
             return reason
     return None
 
